@@ -11,6 +11,7 @@ import (
 	"fmt"
 	"net"
 	"os"
+	"time"
 )
 
 type replayFile struct {
@@ -147,6 +148,11 @@ func BlackholeAddr() string {
 	}
 	return blackhole.Addr().String()
 }
+
+// NativeSleepMs sleeps natively and does nothing under the symbolic executor: used where the code under test
+// derives names from the wall clock, so that two events the concrete clock of the executor keeps apart are
+// also apart in the native replay.
+func NativeSleepMs(ms int) { time.Sleep(time.Duration(ms) * time.Millisecond) }
 
 // Symbolic reports whether the harness runs under the symbolic executor.
 func Symbolic() bool { return false }
